@@ -52,12 +52,12 @@ def line_pairs(y1, y2):
 def explain_pair(x, y):
     """which listed defect turns printed line x into re-printed line y"""
     if b"\r" in x and x.replace(b"\r", b"") == y:
-        return "F50"          # CR LF inside a double-quoted string is read as LF
+        return "F82"          # CR LF inside a double-quoted string is read as LF
     if y == x.rstrip(b" "):
         return "F5"           # blanks before the newline are stripped by the lexer
     if x.lstrip(b" ") == y.lstrip(b" "):
-        # continuation line of a multi-line string: F35 loses leading blanks, F51 gains the printer's indentation
-        return "F35" if len(y) < len(x) else "F51"
+        # continuation line of a multi-line string: F35 loses leading blanks, F83 gains the printer's indentation
+        return "F35" if len(y) < len(x) else "F83"
     return None
 
 
@@ -89,15 +89,15 @@ def explain_compiled(msgs, tag):
         return None
     ctx, a, b = (x[1:] if x[:1] in b" -+" else x for x in d)
     if EXT_LINE.match(a) and a.endswith(b" {") and b == a[:-2] + b";":
-        return "F54"          # the nested extension instance is gone
+        return "F86"          # the nested extension instance is gone
     if tag == b"yin_compiled" and a.endswith(b"\";") and b == a[:-1] + b" {" and not EXT_LINE.match(a):
-        return "F60"          # the extension instances of a later default now sit under the first default
+        return "F92"          # the extension instances of a later default now sit under the first default
     if re.match(rb"^\s*bit ", ctx) and (EXT_LINE.match(a) or EXT_LINE.match(b)):
-        return "F59"          # extension instances of `bit` are not printed
+        return "F91"          # extension instances of `bit` are not printed
     if EXT_LINE.match(a) or EXT_LINE.match(b) or (a.endswith(b" {") and b == a[:-2] + b";") or (b.endswith(b" {") and a == b[:-2] + b";"):
         # the compiled printer stops at the first instance that belongs to another substatement: an instance (or the block of the
         # substatement that holds it) is in one compiled print and not in the other
-        return "F57"
+        return "F89"
     return None
 
 
@@ -107,11 +107,11 @@ def explain_yin_parse(msgs, yin):
     if m.startswith(b"Extension instance") and b"missing argument element" in m and re.search(rb"<([\w.-]+:[\w.-]+)>[ \t\r\n]*</\1>", yin):
         return "F36"
     if b"must be defined as it's first sub-element" in m and re.search(rb"<(description|reference|contact|organization|error-message)>\s*<[\w.-]+:", yin):
-        return "F56"
+        return "F88"
     if re.search(rb"<(description|reference|contact|organization|error-message)/>\s*<(text|value)>", yin):
         return "F20"
     if re.search(rb"<if-feature name=\"[^\"]*>\n", yin):
-        return "F55"
+        return "F87"
     return None
 
 
@@ -121,11 +121,11 @@ def classify(component, what, case):
     if case.get("crash"):
         err = case.get("stderr", "")
         if "tro_ext_printer_tree" in err and "printer_tree.c" in err:
-            return "F52"
+            return "F84"
         if "yprc_choice" in err and "heap-use-after-free" in err:
-            return "F58"
+            return "F90"
         if "lysp_resolve_ext_instance_records" in err and "use-after-free" in err and "tree_schema.c" in err:
-            return "F62"
+            return "F94"
         return None
     return case.get("explained_by") if case.get("explained_by") in recompute(case) else None
 
@@ -137,7 +137,7 @@ def recompute(case):
     pairs = [(unhex(a), unhex(b)) for a, b in case.get("diff_hex", [])]
     out = set()
     if law == "yang_parse" and b"[yang_parse] Invalid character 0xd." in msgs and case.get("y1_has_cr"):
-        out.add("F50")
+        out.add("F82")
     if law in ("yang_reprint", "yang_compiled", "yang_sub", "yin_relex", "yin_compiled") and pairs and case.get("diff_complete"):
         ex = [explain_pair(a, b) for a, b in pairs]
         if None not in ex:
@@ -150,7 +150,7 @@ def recompute(case):
         e = explain_yin_parse(msgs, yin)
         if e:
             out.add(e)
-    if law == "yin_relex" and case.get("relex") in ("F50", "F51", "F54", "F60", "F61", "F64"):
+    if law == "yin_relex" and case.get("relex") in ("F82", "F83", "F86", "F92", "F93", "F95"):
         out.add(case["relex"])
     return out
 
@@ -308,9 +308,9 @@ def judge(cx, m, r, d, lex1, lex3):
         if not ok:
             relex = None
             if (t1 is None or t3 is None) and "InChar" in (lex1[1:3] + lex3[1:3]) and (b"\r" in y1 or b"\r" in y3):
-                relex = "F50"       # a printed CR inside double quotes does not lex
+                relex = "F82"       # a printed CR inside double quotes does not lex
             elif t1 is not None and t3 is None:
-                relex = "F54" if nested_ext(t1) else "F61" if quoted_sub_in_ext(t1) else None
+                relex = "F86" if nested_ext(t1) else "F93" if quoted_sub_in_ext(t1) else None
             elif t1 is not None:
                 dd = yangstrcomp.tree_diff(strip3(t1), strip3(t3))
                 relex = relex_finding(t1, t3, dd)
@@ -344,18 +344,18 @@ def node_at(tr, path):
 
 
 def relex_finding(t1, t3, dd):
-    """YIN-path differences of the statement trees: F60 (extension instances of the n-th `default` moved to the first),
-    F61 (statements inside an extension instance printed without quotes)"""
+    """YIN-path differences of the statement trees: F92 (extension instances of the n-th `default` moved to the first),
+    F93 (statements inside an extension instance printed without quotes)"""
     if dd is None:
         return None
     path = dd[0]
     n1 = node_at(t1, path)
     if dd[1] == "arg" and dd[2][1] is not None and dd[3][1] is not None and b"\r" in dd[2][1] and \
             re.sub(rb"\n +", b"\n", dd[2][1].replace(b"\r", b"")) == re.sub(rb"\n +", b"\n", dd[3][1].replace(b"\r", b"")):
-        return "F64"            # the CR went through YIN raw and the XML reader folded CR LF into LF
+        return "F95"            # the CR went through YIN raw and the XML reader folded CR LF into LF
     if dd[1] == "arg" and n1 is not None and n1[2] & yangstrcomp.LYS_SINGLEQUOTED and dd[3][1] is not None and b"\n" in dd[3][1] and \
             re.sub(rb"\n +", b"\n", dd[2][1] or b"") == re.sub(rb"\n +", b"\n", dd[3][1]):
-        return "F51"            # the first YANG print, single-quoted, already carries inserted indentation
+        return "F83"            # the first YANG print, single-quoted, already carries inserted indentation
     # ancestors (and the node) in the original tree
     anc, tr = [], t1
     for i in path:
@@ -363,16 +363,16 @@ def relex_finding(t1, t3, dd):
             break
         anc.append(tr[i]); tr = tr[i][3]
     if any(b":" in a[0] for a in anc[:-1]) or (anc and b":" in anc[-1][0] and dd[1] in ("count",)):
-        return "F54" if nested_ext(anc[:1]) else "F61"
+        return "F86" if nested_ext(anc[:1]) else "F93"
     if anc and anc[-1][0] == b"default" and dd[1] == "count":
-        return "F60"
+        return "F92"
     if dd[1] == "count" and anc and any(k[0] == b"default" for k in anc[-1][3]):
-        return "F60"
+        return "F92"
     return None
 
 
 def nested_ext(tr, inside=False):
-    """an extension instance inside an extension instance (the YIN parser reads it as a generic statement: F54, YIN part)"""
+    """an extension instance inside an extension instance (the YIN parser reads it as a generic statement: F86, YIN part)"""
     for kw, arg, fl, kids in tr:
         if inside and b":" in kw:
             return True
